@@ -161,6 +161,59 @@ func c17Callbacks(c *Ctx, r *Report, pkgRel string) map[string]bool {
 			invariant[fname] = true
 		}
 	}
+	// R17.7: interface-typed unexported fields of the configuration struct (the listener) are
+	// nil until serving starts: every method call on them needs the same guard
+	for _, fn := range c.allFuncs(pkgRel) {
+		uses := false
+		for _, b := range fn.Blocks {
+			for _, in := range b.Instrs {
+				if ci, ok := in.(*ssa.Call); ok && ci.Common().IsInvoke() {
+					if ld, ok := ci.Common().Value.(*ssa.UnOp); ok {
+						if fa, ok := ld.X.(*ssa.FieldAddr); ok && fieldVarOf(fa) != nil && !fieldVarOf(fa).Exported() {
+							if n, ok := deref(fa.X.Type()).(*types.Named); ok && n.Obj().Exported() {
+								uses = true
+							}
+						}
+					}
+				}
+			}
+		}
+		if !uses {
+			continue
+		}
+		an, fr := get(fn)
+		for _, cr := range an.calls {
+			if cr.frame != fr || cr.method == "" {
+				continue
+			}
+			ld, ok := cr.instr.Common().Value.(*ssa.UnOp)
+			if !ok {
+				continue
+			}
+			fa, ok := ld.X.(*ssa.FieldAddr)
+			if !ok || fieldVarOf(fa) == nil || fieldVarOf(fa).Exported() {
+				continue
+			}
+			if n, ok := deref(fa.X.Type()).(*types.Named); !ok || !n.Obj().Exported() {
+				continue
+			}
+			okc := nonNilAt(fr, cr.state, cr.recv, nil)
+			if !okc {
+				fired[fn.Name()+":iface"] = true
+			}
+			if r == nil {
+				continue
+			}
+			r.instance("R17.7", 1)
+			r.funcs[fnID(fn)] = true
+			what := fieldVarOf(fa).Name() + "." + cr.method + "()"
+			if okc {
+				r.ok("R17.7", fnID(fn), what+" is called only where the field was tested non-nil on the path", posOfCall(c, cr), true)
+			} else {
+				r.fail("R17.7", fnID(fn), what+" can be called while the field is still nil (server not started)", posOfCall(c, cr), truncate(cr.state.String(), 200), "nil-iface:"+what)
+			}
+		}
+	}
 	// every dynamic call in the package
 	for _, fn := range c.allFuncs(pkgRel) {
 		hasDyn := false
